@@ -75,6 +75,8 @@ def emit_stmts(o, scn, stmts, ctx):
             vsc.soft(emit_expr(o, scn, s["e"], ctx))
         elif k == "unique":
             vsc.unique(*[emit_expr(o, scn, x, ctx) for x in s["es"]])
+        elif k == "unique_vec":
+            vsc.unique_vec(*[getattr(o, scn["lists"][li]["name"]) for li in s["ls"]])
         elif k == "implies":
             with vsc.implies(emit_expr(o, scn, s["c"], ctx)):
                 emit_stmts(o, scn, s["b"], ctx)
